@@ -117,6 +117,9 @@ def quote (tbl : Nat → Bool) (s : Bytes) : Bytes := [34] ++ quoteLoop tbl s.le
 def lookupPrec (t : TokType) : Option Nat :=
   (precedences.find? fun (k, _) => k = t).map (·.2)
 
+/-- `Precedences[token.COLON]` (Go map lookup: zero when absent) -/
+def colonPrecedence : Nat := (lookupPrec .COLON).getD 0
+
 /-- `ps.needParen(tok)` : (state with the new precedence, needParen, oldPrecedence) -/
 def needParen (ps : PrintState) (t : Tk) : Except PrintPanic (PrintState × Bool × Nat) :=
   match lookupPrec t.type with
@@ -158,6 +161,15 @@ def longFormSep (ps : PrintState) (s : Option Node) (i : Nat) : PrintState :=
     else ps.println
   else ps
 
+/-- a repeated associative operator on the right, `1 + (2 + 3)`: the only right operand of the same
+precedence printed without parentheses -/
+def sameAssociativeOperator (op : Tk) : Node → Bool
+  | .infix t _ _ =>
+    t.type = op.type &&
+      (op.type = .PLUS || op.type = .ASTERISK || op.type = .AND || op.type = .OR || op.type = .BITAND
+        || op.type = .BITOR || op.type = .BITXOR)
+  | _ => false
+
 /-- printElse's test `len(Alternative.Statements) == 1 && Alternative.Statements[0].Value().Type() == token.IF` -/
 inductive ElseKind | nilFirst | elseIf | block
 
@@ -181,7 +193,9 @@ def printNode (tbl : Nat → Bool) (n : Node) (ps : PrintState) : PR :=
     let oldPrecedence := ps.exprPrec
     let ps := { ps with exprPrec := prioPREFIX }
     let needP := ps.allParens || prioPREFIX ≤ oldPrecedence
-    let ps := if needP then ps.print [40] else ps
+    let ps := if needP then ps.print [40]
+      else if ps.compact && !ps.last.isEmpty && ps.last.getLast? == t.lit.head? then ps.print [32]
+      else ps
     let ps := ps.print t.lit
     match printO tbl right ps with
     | .error e => .error e
@@ -204,10 +218,10 @@ def printNode (tbl : Nat → Bool) (n : Node) (ps : PrintState) : PR :=
       match printO tbl left ps with
       | .error e => .error e
       | .ok ps =>
-        let ps := if ps.compact then ps.print t.lit else ((ps.print [32]).print t.lit).print [32]
+        let ps := if ps.compact || right.isNone then ps.print t.lit else ((ps.print [32]).print t.lit).print [32]
         let r : PR := match right with
-          | none => .ok (ps.print (str "nil"))
-          | some r => printNode tbl r ps
+          | none => .ok ps
+          | some r => printNode tbl r (if sameAssociativeOperator t r then ps else { ps with exprPrec := ps.exprPrec + 1 })
         match r with
         | .error e => .error e
         | .ok ps =>
@@ -239,6 +253,8 @@ def printNode (tbl : Nat → Bool) (n : Node) (ps : PrintState) : PR :=
     | .ok ps => .ok (ps.print [41])
   | .func t name params body _ isLambda =>
     if isLambda then
+      let outerParen := ps.exprPrec > prioLAMBDA
+      let ps := if outerParen then ps.print [40] else ps
       let needP := params.length != 1
       let ps := if needP then ps.print [40] else ps
       match printList tbl params ps 0 with
@@ -246,7 +262,9 @@ def printNode (tbl : Nat → Bool) (n : Node) (ps : PrintState) : PR :=
       | .ok ps =>
         let ps := if needP then ps.print [41] else ps
         let ps := if ps.compact then ps.print (str "=>") else ps.print (str " => ")
-        printStmts tbl body ps
+        match printStmts tbl body ps with
+        | .error e => .error e
+        | .ok ps => .ok (if outerParen then ps.print [41] else ps)
     else
       let ps := ps.print t.lit
       let ps := match name with
@@ -256,11 +274,11 @@ def printNode (tbl : Nat → Bool) (n : Node) (ps : PrintState) : PR :=
       | .error e => .error e
       | .ok ps => printStmts tbl body (if ps.compact then ps.print [41] else ps.print (str ") "))
   | .call _ fn args =>
-    match printO tbl fn ps with
+    let old := ps.exprPrec
+    match printO tbl fn { ps with exprPrec := prioCALL } with
     | .error e => .error e
     | .ok ps =>
       let ps := ps.print [40]
-      let old := ps.exprPrec
       match printList tbl args { ps with exprPrec := prioLOWEST } 0 with
       | .error e => .error e
       | .ok ps => .ok ({ ps with exprPrec := old }.print [41])
@@ -284,9 +302,10 @@ def printNode (tbl : Nat → Bool) (n : Node) (ps : PrintState) : PR :=
           let ps := if needP then ps.print [41] else ps
           .ok { ps with exprPrec := old }
   | .mapLit _ kvs =>
+    let old := ps.exprPrec
     match printPairs tbl kvs (ps.print [123]) 0 with
     | .error e => .error e
-    | .ok ps => .ok (ps.print [125])
+    | .ok ps => .ok ({ ps with exprPrec := old }.print [125])
   | .macroLit t params body =>
     match printList tbl params ((ps.print t.lit).print [40]) 0 with
     | .error e => .error e
@@ -318,10 +337,11 @@ def printPairs (tbl : Nat → Bool) (kvs : List (Option Node)) (ps : PrintState)
   match kvs with
   | k :: v :: rest =>
     let ps := if i > 0 then ps.print (if ps.compact then [44] else [44, 32]) else ps
-    match printO tbl k ps with
+    -- key and value are printed as the left and right operands of ':'
+    match printO tbl k { ps with exprPrec := colonPrecedence } with
     | .error e => .error e
     | .ok ps =>
-      match printO tbl v (ps.print [58]) with
+      match printO tbl v { (ps.print [58]) with exprPrec := colonPrecedence + 1 } with
       | .error e => .error e
       | .ok ps => printPairs tbl rest ps (i + 1)
   | _ => .ok ps
